@@ -26,13 +26,19 @@ def run_script(kind, lines, timeout=1800, env=None):
     ops = [l for l in lines if l.strip() and not l.lstrip().startswith('#')]
     e = {'H_OP_TIMEOUT_MS': '20000'}
     if env: e.update(env)
-    rc, out = run([BIN[kind]], input='\n'.join(ops) + '\n', timeout=timeout, env=e)
-    res = out.split('\n')
-    if res and res[-1] == '': res.pop()
-    if len(res) != len(ops):
-        # a crash / timeout truncates the output; pad so that callers can see where
-        res = res + ['CRASH'] * (len(ops) - len(res))
-    return res
+    res = []
+    start = 0
+    for attempt in range(200):
+        rc, out = run([BIN[kind]], input='\n'.join(ops[start:]) + '\n', timeout=timeout, env=e, drop_stderr=True)
+        part = out.split('\n')
+        if part and part[-1] == '': part.pop()
+        res += part
+        if len(res) >= len(ops): break
+        # the process died (watchdog exit after TIMEOUT, abort, stack overflow): mark the offending line and resume after it
+        if not part or part[-1] != 'TIMEOUT': res.append('CRASH')
+        start = len(res)
+        if start >= len(ops): break
+    return res[:len(ops)] + ['CRASH'] * (len(ops) - len(res))
 
 def list_ops(kind):
     ok, o = build(kind)
